@@ -1,0 +1,15 @@
+//go:build verif
+
+package getter
+
+import (
+	"net/http"
+	"time"
+)
+
+// VerifSetDefaultTransport makes every HTTP getter created by the built-in provider
+// (getter.All) use the given transport, so that a test harness can route requests for
+// arbitrary host names to a local capture server. Only compiled with -tags verif.
+func VerifSetDefaultTransport(tr *http.Transport) {
+	defaultOptions = []Option{WithTimeout(time.Second * DefaultHTTPTimeout), WithTransport(tr)}
+}
